@@ -35,6 +35,9 @@ type c08Case struct {
 	AbandonMore int `json:"abandon_more,omitempty"`
 	// AbandonedAt[p][i]: producer p's i-th batch carries an abandoned unbuffered channel
 	AbandonedAt [][]bool `json:"abandoned_at,omitempty"`
+	// KindAt[p][i]: 0 = rows, 1 = an empty batch, 2 = a batch with an
+	// unmarshalable row (both are answered by the ingest actor itself)
+	KindAt [][]int `json:"kind_at,omitempty"`
 	// Flushers: Flush callers that arrive after the wedge has formed and before
 	// Stop (their requests queue behind the wedged flush)
 	Flushers   int   `json:"flushers,omitempty"`
@@ -87,16 +90,19 @@ func genC08() *rapid.Generator[c08Case] {
 				// and producers are parked on the full ingest buffer when Stop arrives
 				c.Cfg.BufRows = 1
 				c.Cfg.IngestBuf = pick(t, "deepbuf", []int{1, 2})
-				c.Producers, c.AbandonedAt = nil, nil
+				c.Producers, c.AbandonedAt, c.KindAt = nil, nil, nil
 				for i := 0; i < 3; i++ {
 					k := rapid.IntRange(3, 6).Draw(t, "deepn")
 					ps := make([]int, k)
 					ab := make([]bool, k)
+					kd := make([]int, k)
 					for j := range ab {
 						ab[j] = chance(t, "deepab", 60)
+						kd[j] = pick(t, "deepkind", []int{0, 0, 0, 1, 2})
 					}
 					c.Producers = append(c.Producers, ps)
 					c.AbandonedAt = append(c.AbandonedAt, ab)
+					c.KindAt = append(c.KindAt, kd)
 				}
 				c.StopCtx = pick(t, "deepstop", []string{"deadline", "deadline", "late"})
 				c.StopDelay = pick(t, "deepdelay", []int{3000, 10000, 30000})
@@ -112,7 +118,7 @@ func genC08() *rapid.Generator[c08Case] {
 				if c.Gate != nil {
 					c.Gate.N = 0
 				}
-				c.AbandonedAt = nil
+				c.AbandonedAt, c.KindAt = nil, nil
 				c.AbandonMore = 0
 				c.StopDelay = pick(t, "quietdelay", []int{3000, 10000})
 				c.StopCtx = "deadline"
@@ -204,7 +210,11 @@ func runC08Once(c c08Case) (*c08Obs, *Violation) {
 			defer wg.Done()
 			for bi, p := range pauses {
 				time.Sleep(time.Duration(p) * time.Microsecond)
-				b := book.NewBatch("good", "buf", 1, 1)
+				kind := "good"
+				if pi < len(c.KindAt) && bi < len(c.KindAt[pi]) {
+					kind = []string{"good", "empty", "bad"}[c.KindAt[pi][bi]%3]
+				}
+				b := book.NewBatch(kind, "buf", 1, 1)
 				if (bi == 0 && pi < c.AbandonMore) || (pi < len(c.AbandonedAt) && bi < len(c.AbandonedAt[pi]) && c.AbandonedAt[pi][bi]) {
 					b.Ch = make(chan error) // unbuffered, nobody ever receives
 					b.ChanKind = "abandoned"
